@@ -48,11 +48,11 @@ func c10errs(err error, names []string) string {
 			}
 		}
 		if !classified && strings.Contains(m, n) {
-			it = append(it, n+":?\x00"+tag("?", atom(n)))
+			it = append(it, n+":?\x00"+tag("?unclassified?", atom(n)))
 		}
 	}
 	if len(it) == 0 {
-		return list(tag("?", atom(m)))
+		return list(tag("?unclassified?", atom(m)))
 	}
 	sort.Strings(it)
 	for i := range it {
